@@ -436,7 +436,7 @@ func c11Worker(tier Tier) int {
 			}
 			// freeze markers under identifiers that end in (or contain) a dash, then their wipe (the
 			// wipe is the one call of the family that builds a log from the identifier)
-			for _, id := range [][]byte{[]byte("S-"), []byte("S\x2d\x01"), []byte("F-1"), []byte("-")} {
+			for _, id := range [][]byte{[]byte("S-"), []byte("S\x2d\x01"), []byte("F-1"), []byte("-"), []byte("TOKENS-1"), []byte("COLLECT-a1b2c3-"), []byte("COLLECT-a1b2c3\x2d\x01"), []byte("COLLECT-a1b2c3\x01\x2d"), []byte("-------")} {
 				mk := &uni.Builder{Env: envs[0], W: catalogueBase(envs[0])}
 				mk.Must(uni.SysCall(uni.B0, vmcommon.BuiltInFunctionESDTFreeze, id))
 				if mk.Failed == "" {
